@@ -2195,8 +2195,10 @@ func (f *fragment) importValueSmallWrite(columnIDs []uint64, values []int64, bit
 		_ = f.openStorage(true)
 		return err
 	}
-	rowSet := make(map[uint64]struct{}, bitDepth+1)
-	for i := uint(0); i < bitDepth+1; i++ {
+	// The affected rows are the exists row, the sign row and bitDepth value
+	// rows.
+	rowSet := make(map[uint64]struct{}, bitDepth+bsiOffsetBit)
+	for i := uint(0); i < bitDepth+bsiOffsetBit; i++ {
 		rowSet[uint64(i)] = struct{}{}
 	}
 	err := f.importPositions(toSet, toClear, rowSet)
@@ -2236,10 +2238,11 @@ func (f *fragment) importValue(columnIDs []uint64, values []int64, bitDepth uint
 		_ = f.openStorage(true)
 		return err
 	}
-	// Invalidate the block checksums of every BSI row (exists, sign and
-	// bitDepth value rows).
+	// Invalidate the block checksums and the cached rows of every BSI row
+	// (exists, sign and bitDepth value rows).
 	for i := uint64(0); i < uint64(bitDepth)+bsiOffsetBit; i++ {
 		delete(f.checksums, int(i/HashBlockSize))
+		f.rowCache.Add(i, nil)
 	}
 
 	// We don't actually care, except we want our stats to be accurate.
